@@ -204,6 +204,8 @@ def ground_comparison_matrix(tier, seed):
         ('xs:untypedAtomic("9007199254740993") = 9007199254740993', True), ('9007199254740993 = xs:untypedAtomic("9007199254740993")', True),
         ('xs:untypedAtomic("9007199254740993") = 9007199254740992', True),
         ('true() = 1.0', 'XPTY0004'), ('true() = 1e0', 'XPTY0004'), ('true() < 2.0', 'XPTY0004'), ('true() = xs:float("1")', 'XPTY0004'),
+        ('xs:untypedAtomic(" true ") = true()', True), ('true() = xs:untypedAtomic(" 1 ")', True), ('xs:untypedAtomic(" 0 ") != false()', False),
+        ('xs:untypedAtomic(" 1 ") = 1', True), ('xs:untypedAtomic(" 2000-01-01 ") = xs:date("2000-01-01")', True), ('xs:untypedAtomic("tru e") = true()', 'FORG0001'),
         ('xs:untypedAtomic("x") = xs:date("2000-01-01")', 'FORG0001'), ('xs:date("2000-01-01") = xs:untypedAtomic("x")', 'FORG0001'),
         ('xs:decimal("0.1") = 0.1e0', True), ('xs:decimal("0.1") < 0.1e0', False), ('0.1e0 = xs:decimal("0.1")', True),
         ('xs:double("NaN") = xs:double("NaN")', False), ('xs:double("NaN") != xs:double("NaN")', True), ('xs:double("NaN") eq 1', False),
@@ -400,6 +402,27 @@ def order_laws(tier, seed):
                 got = run_native(lambda: ep_select(None, expr, parser=P, xsd_version='1.1', item=1))
                 if got != ('return', fn_(ka, kb)):
                     fams.setdefault(f'XSD 1.1: {form} comparison between xs:dateTime and xs:dateTimeStamp', []).append({'expr': expr, 'got': repr(got)[:90], 'expected': fn_(ka, kb)})
+    # operands that outlive an evaluation (variables) are not changed by a comparison: the same values compared again under another implicit timezone
+    from elementpath import XPathContext
+    from elementpath.datatypes import DateTime, Date, Time
+    for mk, other in ((lambda: DateTime.fromstring('2000-01-01T05:00:00'), 'xs:dateTime("2000-01-01T00:00:00Z")'), (lambda: Date.fromstring('2000-01-01'), 'xs:date("2000-01-01+05:00")'),
+                      (lambda: Time.fromstring('05:00:00'), 'xs:time("00:00:00Z")')):
+        for op1, op2 in itertools.product(('=', '!=', '<', '>=', 'eq', 'lt'), repeat=2):
+            n += 1
+            seen.add(('operand frame', op1 in VALUE_OPS, op2 in VALUE_OPS))
+            d = mk()
+            before = (str(d), d.tzinfo)
+            outs = []
+            for op, tz in ((op1, '+05:00'), (op2, 'Z')):
+                fresh = mk()
+                tok = P().parse(f'$d {op} {other}')
+                got = run_native(lambda: tok.evaluate(XPathContext(root=None, item=1, variables={'d': d}, timezone=tz)))
+                ref = run_native(lambda: P().parse(f'$d {op} {other}').evaluate(XPathContext(root=None, item=1, variables={'d': fresh}, timezone=tz)))
+                outs.append((op, tz, got, ref))
+            if (str(d), d.tzinfo) != before or any(g != r for _, _, g, r in outs):
+                fams.setdefault('a comparison changes an operand bound to a variable (a later comparison of the same value under another implicit timezone gives '
+                                'the answer of the first)', []).append({'expr': f'$d {op1} {other} under +05:00, then $d {op2} {other} under Z', 'got': repr([o[2] for o in outs])[:90],
+                                                                        'expected': repr([o[3] for o in outs])[:90], 'operand_after': f'{d} tzinfo={d.tzinfo}'})
     fails = [{'key': k, 'items': it[:4], 'count': len(it), 'what': f'{k}: e.g. {it[0]}', 'expr': it[0]['expr']} for k, it in fams.items()]
     return {'evaluations': n, 'distinct': len(seen), 'failures': fails, 'n_failures': len(fails),
             'scope': f'{len(grids)} ordered types x all pairs of a value grid (5-12 values each: sub-millisecond durations, equal values with different lexical forms, '
